@@ -23,7 +23,8 @@ def _battery(args):
         st = {x: st[x] for x in ("n", "par", "kids", "top", "dat", "did", "knd", "meta", "typed")}
         if fl.typed and not st["typed"]:
             st = dict(st, typed=True, knd=[1] * st["n"])
-        b = core.build(st, fl)
+        # every other state is created level by level, so that creation order differs from pre-order
+        b = core.build(st, fl, order="level" if (base + k) % 2 else "pre")
         c = Q.Ctx(b, st)
         if prop == "C06":
             obs = Q.obs_c06(c, all_assign_max=opts.get("all_assign_max", 4), forms=opts.get("forms", "rotate"))
